@@ -15,7 +15,16 @@ and what was raised are compared with an oracle written here:
   exponent 1; everything else that contains `=` is a dependent) is re-derived by the oracle
   from the spec list, not read from pint.
 
-Fraction registry: equality is `==` (no tolerance); float registry: 1e-12 relative.
+Three registry configurations, one per shard (see `shards`): "fraction" (Fraction registry,
+declared units given as Unit objects; equality is `==`, no tolerance), "fraction-str" (same,
+unit strings allowed as argument specs) and "float" (default registry, 1e-12 relative).
+Lost exactness in a Fraction registry is reported as one mechanism with a `via` field naming
+the route (string spec / bare number for a reference spec / conversion cache filled by one
+of those); see `World.inexact_via`.  Float registry only: magnitudes are not compared when
+an exponent exceeds 3 or a factor leaves 1e-100..1e100, and calls ending in OverflowError are
+skipped and counted (`float_range_skipped*`): pint's float root factors pass through
+denormals / overflow there (e.g. bohr_magneton**6, conventional_watt_90**6); the same cases
+are decided exactly in the Fraction shards.
 
 Deviations from the DESIGN plan / interpretation notes
 * Reference specs and bare numbers.  pint treats a bare number given for an `=A...` spec as
@@ -68,21 +77,21 @@ def exhaustive(tier):
 def required(tier):
     s = 0.7 if tier == "quick" else 4
     req = {
-        "programs_wraps": 15000 * s, "programs_check": 5000 * s,
-        "wraps_ok_calls": 40000 * s, "wraps_dimerr_calls": 6000 * s,
-        "strict_refused_calls": 1500 * s, "nonstrict_passthrough_args": 4000 * s,
-        "none_passthrough_args": 30000 * s, "none_spec_non_quantity_in_strict_mode": 5000 * s,
-        "converted_args_checked": 40000 * s, "converted_args_ratio_ne_1": 30000 * s,
-        "converted_kw_args": 15000 * s, "converted_default_args": 4000 * s,
-        "def_args_checked": 40000 * s, "dep_args_checked": 10000 * s,
-        "dep_before_its_definition_checked": 2000 * s,
-        "kw_passed_args": 80000 * s, "defaults_used_args": 20000 * s,
-        "ret_scalar_checked": 20000 * s, "ret_container_checked": 20000 * s,
-        "ret_derived_checked": 12000 * s,
-        "check_pass_calls": 12000 * s, "check_raise_calls": 6000 * s,
-        "check_raise_only_at_later_position": 2000 * s,
-        "check_args_identity_checked": 30000 * s,
-        "deco_mismatch_wraps": 600 * s, "deco_mismatch_check": 600 * s,
+        "programs_wraps": 15000, "programs_check": 5000,
+        "wraps_ok_calls": 40000, "wraps_dimerr_calls": 6000,
+        "strict_refused_calls": 1500, "nonstrict_passthrough_args": 4000,
+        "none_passthrough_args": 30000, "none_spec_non_quantity_in_strict_mode": 5000,
+        "converted_args_checked": 40000, "converted_args_ratio_ne_1": 30000,
+        "converted_kw_args": 15000, "converted_default_args": 4000,
+        "def_args_checked": 40000, "dep_args_checked": 10000,
+        "dep_before_its_definition_checked": 2000,
+        "kw_passed_args": 80000, "defaults_used_args": 20000,
+        "ret_scalar_checked": 20000, "ret_container_checked": 20000,
+        "ret_derived_checked": 12000,
+        "check_pass_calls": 12000, "check_raise_calls": 6000,
+        "check_raise_only_at_later_position": 2000,
+        "check_args_identity_checked": 30000,
+        "deco_mismatch_wraps": 600, "deco_mismatch_check": 600,
     }
     req = {k: int(v * s) for k, v in req.items()}
     req["offset_args_checked"] = 2000
@@ -132,7 +141,6 @@ class Spec:
         self.canon_pool = None
         self.role = {"none": "none", "ref": "dep"}.get(form, "plain")
         self.sym = None
-        self.neg = bool(sp) and any(e < 0 for e in sp.values())
         self.text = text if text is not None else srepr(obj)
 
 
@@ -204,8 +212,6 @@ class World:
     def __init__(self, spec, rec):
         from harness import pintload, refmodel as R, gen
         import pint
-        self.pint = pint
-        self.R = R
         self.rec = rec
         self.rng = random.Random(spec["seed"])
         self.nitname = spec["nit"]
@@ -630,19 +636,14 @@ def gen_value(W, spec, tmpl, strict, clean):
 
 
 def attach_pool_canon(W, specs):
-    """Every plain spec remembers the pool-level (unprefixed canonical) dict it was drawn
-    from so that variants can be generated class-wise."""
+    """Every plain spec remembers its pint-canonical dict; `variant` substitutes class-wise
+    (prefixed names were registered in `cls_of` when they were spelled)."""
     for s in specs:
         if s.role == "plain":
-            d = {}
-            for n, e in s.canon.items():
-                d = merge(d, {n: e})
-            s_pool = {}
-            for n, e in d.items():
+            for n in s.canon:
                 if n not in W.cls_of:
                     raise KeyError(n)
-                s_pool[n] = e
-            s.canon_pool = s_pool
+            s.canon_pool = dict(s.canon)
 
 
 # --------------------------------------------------------------------------------------
@@ -1023,7 +1024,6 @@ def gen_check_spec(W):
             s = Spec("str", text, sp=sp, canon=cn, text=text)
         else:
             s = Spec("deriveddim", name, sp=dict(canon), canon=dict(canon), text=name)
-    s.canon_pool = {k: v for k, v in (s.canon or {}).items()}
     s.role = "plain" if s.form != "none" else "none"
     return s
 
@@ -1032,13 +1032,7 @@ def run_check_program(W, rec):
     rng, ureg = W.rng, W.ureg
     params, has_default = gen_params(W)
     specs = [gen_check_spec(W) for _ in params]
-    for s in specs:
-        if s.role == "plain":
-            # variants need pool-level names
-            s.canon_pool = {n: e for n, e in s.canon.items()}
-            for n in s.canon_pool:
-                if n not in W.cls_of:
-                    raise KeyError(n)
+    attach_pool_canon(W, specs)
     for p, hd, s in zip(params, has_default, specs):
         if hd:
             p.default = gen_check_value(W, s, clean=rng.random() < 0.8)
